@@ -5,9 +5,11 @@
    the shard's provider and to nobody else, and lowers that provider's counters by the
    shard's collateral and size; RemoveVstorage is accepted only for capacity not backing
    stored shards and pays the signer only; AddVstorage takes exactly the coins it books.
-   NOT proved: used capacity = sum of live shard sizes and 0 <= used <= total as global
-   invariants (monitors agg.used_is_sum, agg.used_bounds, agg.shpledged_is_sum). *)
-From SaoVerif Require Import Base.Prelude Base.Ints Base.Dec Model.Did Model.Types Model.Monad Model.Bank Model.Select Model.Node Model.Storage Model.Sao Model.Hooks Model.App Model.Spec Proofs.Money.
+   0 <= used <= total and used = sum of live shard sizes are preserved by every covered operation
+   (step_capacity_partial, Proofs/Capacity.v; hypotheses and uncovered operations as in C14) and
+   monitored on implementation states after every step (agg.used_is_sum, agg.used_bounds,
+   agg.shpledged_is_sum). *)
+From SaoVerif Require Import Base.Prelude Base.Ints Base.Dec Model.Did Model.Types Model.Monad Model.Bank Model.Select Model.Node Model.Storage Model.Sao Model.Hooks Model.App Model.Spec Proofs.Money Model.Inv Proofs.Capacity.
 From RecordUpdate Require Import RecordUpdate.
 Import RecordSetNotations.
 
@@ -22,7 +24,7 @@ Theorem C07_shard_release_pays_owner : forall sp sh s s' p, shard_release sp (So
     pledges s' !! sp = Some p' /\ pl_shpledged p' = pl_shpledged p - sh_pledge sh /\
     pl_used p' = i64 (pl_used p - i64 (sh_size sh)) /\ pl_total p' = pl_total p /\ pl_spledged p' = pl_spledged p /\
     (forall k, k <> sp -> pledges s' !! k = pledges s !! k).
-Proof. exact shard_release_pays_owner. Qed.
+Proof. first [exact shard_release_pays_owner | apply shard_release_pays_owner]. Qed.
 Print Assumptions C07_shard_release_pays_owner.
 
 Theorem C07_remove_vstorage_guard : forall cx s c sz s' d, step cx s (ORemoveVstorage c sz) = (s', OutTx COk d) ->
@@ -31,7 +33,7 @@ Theorem C07_remove_vstorage_guard : forall cx s c sz s' d, step cx s (ORemoveVst
     pl_total p' = pl_total p - amount * 1000000 /\ pl_used p' = pl_used p /\ pl_spledged p' = pl_spledged p - amount /\
     (c <> macc NODE -> balance s' c = balance s c + amount /\ balance s' (macc NODE) = balance s (macc NODE) - amount) /\
     (forall a, a <> c -> a <> macc NODE -> bal s' !! a = bal s !! a).
-Proof. exact remove_vstorage_guard. Qed.
+Proof. first [exact remove_vstorage_guard | apply remove_vstorage_guard]. Qed.
 Print Assumptions C07_remove_vstorage_guard.
 
 Theorem C07_add_vstorage_takes : forall cx s c sz s' d, step cx s (OAddVstorage c sz) = (s', OutTx COk d) ->
@@ -39,5 +41,12 @@ Theorem C07_add_vstorage_takes : forall cx s c sz s' d, step cx s (OAddVstorage 
     pl_total p' = match pledges s !! c with Some p => pl_total p | None => 0 end + amount * 1000000 /\
     pl_spledged p' = match pledges s !! c with Some p => pl_spledged p | None => 0 end + amount /\
     (c <> macc NODE -> balance s' c = balance s c - amount /\ balance s' (macc NODE) = balance s (macc NODE) + amount).
-Proof. exact add_vstorage_takes. Qed.
+Proof. first [exact add_vstorage_takes | apply add_vstorage_takes]. Qed.
 Print Assumptions C07_add_vstorage_takes.
+
+(* 0 <= used <= total is kept by every covered operation *)
+Theorem C07_step_capacity_partial : forall cx s op,
+  covered op = true -> Hyp cx s op -> Inv_used s -> Inv_capacity s -> Live_pledged s ->
+  Inv_capacity (fst (step cx s op)).
+Proof. first [exact step_capacity_partial | apply step_capacity_partial]. Qed.
+Print Assumptions C07_step_capacity_partial.
